@@ -22,13 +22,16 @@ def mods():
 
 
 class Node:
-    __slots__ = ("k", "a", "ch", "_obj")
+    """k: kind, a: attributes (what goes into the model term), ch: children, x: Python-side extras that do not reach
+    the model (real key / member names, enum and data classes, constructor parameters of opaque adapters)"""
+    __slots__ = ("k", "a", "ch", "_obj", "x")
 
-    def __init__(self, k, a=(), ch=()):
+    def __init__(self, k, a=(), ch=(), x=None, obj=None):
         self.k = k
         self.a = tuple(a)
         self.ch = list(ch)
-        self._obj = None
+        self._obj = obj
+        self.x = x or {}
 
     def __repr__(self):
         return sexp(self)
@@ -64,6 +67,21 @@ def _tbl(tbl):
 
 def _ts(ts):
     return "( " + " ".join(hx(t) for t in ts) + " )" if ts else "( )"
+
+
+def _adapter_sx(ad) -> str:
+    if ad[0] == "bool":
+        return "( bool )"
+    if ad[0] == "enum":
+        return f"( enum {int(ad[1])} {_tbl(ad[2])} )"
+    if ad[0] == "flag":
+        return f"( flag {_tbl(ad[1])} )"
+    if ad[0] == "opaque":
+        return f"( opaque {hx(ad[1])} )"
+    if ad[0] == "bitfield":
+        ents = " ".join(f"( {hx(n_)} {hx(bits)} {'( none )' if fa is None else _adapter_sx(fa)} )" for n_, bits, fa in ad[2])
+        return f"( bitfield {int(ad[1])} {ents} )"
+    raise ValueError(ad)
 
 
 def sexp(n: Node) -> str:
@@ -106,14 +124,15 @@ def sexp(n: Node) -> str:
     if k == "opt":
         return f"( opt {ch[0]} )"
     if k == "adapter":
-        ad = a[0]
-        if ad[0] == "bool":
-            s = "( bool )"
-        elif ad[0] == "enum":
-            s = f"( enum {int(ad[1])} {_tbl(ad[2])} )"
-        else:
-            s = f"( flag {_tbl(ad[1])} )"
-        return f"( adapter {s} {ch[0]} )"
+        return f"( adapter {_adapter_sx(a[0])} {ch[0]} )"
+    if k == "optflagged":
+        f, ftbl, mask = a
+        t = "( none )" if ftbl is None else "( " + _tbl(ftbl) + " )"
+        return f"( optflagged {hx(f)} {t} {hx(mask)} {ch[0]} )"
+    if k == "coord":
+        return f"( coord {a[0]} " + " ".join(ch) + " )"
+    if k == "dataclass":
+        return "( dataclass " + " ".join(f"( {hx(nm)} {c} )" for nm, c in zip(a[0], ch)) + " )"
     if k == "typed":
         tk, en, ct = a
         if tk[0] == "greedy":
@@ -123,7 +142,7 @@ def sexp(n: Node) -> str:
         elif tk[0] == "fixed":
             s = f"( fixed {hx(tk[1])} )"
         else:
-            s = f"( term {_ts(tk[1])} )"
+            s = f"( term {_ts(tk[1])} {int(tk[2])} )"
         return f"( typed {s} {int(en)} {int(ct)} {ch[0]} )"
     if k == "ifpresent":
         return f"( ifpresent {ch[0]} )"
@@ -166,6 +185,22 @@ def _ptbl(l):
     return tuple((int(n, 16), int(z, 16)) for n, z in l)
 
 
+def _padapter(ad):
+    if ad[0] == "bool":
+        return ("bool",)
+    if ad[0] == "enum":
+        return ("enum", ad[1] == "1", _ptbl(ad[2:]))
+    if ad[0] == "flag":
+        return ("flag", _ptbl(ad[1:]))
+    if ad[0] == "opaque":
+        # reconstructed from a term: a U-prim quantized float with a fixed range stands in for the instance
+        return ("opaque", int(ad[1], 16))
+    if ad[0] == "bitfield":
+        return ("bitfield", ad[1] == "1",
+                tuple((int(f[0], 16), int(f[1], 16), None if f[2] == ["none"] else _padapter(f[2])) for f in ad[2:]))
+    raise ValueError(ad)
+
+
 def node_of_sx(x) -> Node:
     h = x[0]
     if h == "prim":
@@ -186,6 +221,11 @@ def node_of_sx(x) -> Node:
         return Node(h)
     if h == "tuple":
         return Node("tuple", (), [node_of_sx(c) for c in x[1:]])
+    if h == "coord":
+        return Node("coord", (x[1],), [node_of_sx(c) for c in x[2:]])
+    if h == "dataclass":
+        fs = x[1:]
+        return Node("dataclass", (tuple(int(f[0], 16) for f in fs),), [node_of_sx(f[1]) for f in fs])
     if h == "template":
         fs = x[2:]
         return Node("template", (tuple(int(f[0], 16) for f in fs), x[1] == "1"), [node_of_sx(f[1]) for f in fs])
@@ -201,14 +241,10 @@ def node_of_sx(x) -> Node:
     if h == "opt":
         return Node("opt", (), [node_of_sx(x[1])])
     if h == "adapter":
-        ad = x[1]
-        if ad[0] == "bool":
-            a = ("bool",)
-        elif ad[0] == "enum":
-            a = ("enum", ad[1] == "1", _ptbl(ad[2:]))
-        else:
-            a = ("flag", _ptbl(ad[1:]))
-        return Node("adapter", (a,), [node_of_sx(x[2])])
+        return Node("adapter", (_padapter(x[1]),), [node_of_sx(x[2])])
+    if h == "optflagged":
+        return Node("optflagged", (int(x[1], 16), None if x[2] == ["none"] else _ptbl(x[2]), int(x[3], 16)),
+                    [node_of_sx(x[4])])
     if h == "typed":
         tk = x[1]
         if tk[0] == "greedy":
@@ -218,7 +254,7 @@ def node_of_sx(x) -> Node:
         elif tk[0] == "fixed":
             t = ("fixed", int(tk[1], 16))
         else:
-            t = ("term", tuple(int(q, 16) for q in tk[1]))
+            t = ("term", tuple(int(q, 16) for q in tk[1]), tk[2] == "1")
         return Node("typed", (t, x[2] == "1", x[3] == "1"), [node_of_sx(x[4])])
     if h == "ifpresent":
         return Node("ifpresent", (), [node_of_sx(x[1])])
@@ -268,6 +304,89 @@ def _terms(ts):
     return tuple(bytes([t]) for t in ts)
 
 
+# quantized / fixed-point adapters the generator uses: the model only sees the id
+OPAQUE_PRESETS = {
+    0: ("quant", -1.0, 1.0), 1: ("quant", 0.0, 1.0), 2: ("quant", -256.0, 256.0), 3: ("quant", -64.0, 64.0),
+    4: ("quant", 0.0, 255.0), 5: ("quant", -3.5, 12.25),
+    8: ("fixed", 8, 8, False), 9: ("fixed", 8, 7, True), 10: ("fixed", 4, 4, False), 11: ("fixed", 16, 16, False),
+    12: ("fixed", 3, 4, True),
+}
+COORDS = {"Vector3": 3, "Vector4": 4, "Vector3D": 3, "Vector3U16": 3, "Vector4U16": 4, "Vector3U8": 3, "Vector4U8": 4,
+          "Vector2U16": 2, "FixedPointVector3U16": 3}
+
+
+def key_name(i: int) -> str:
+    return "f%d" % i
+
+
+def tkeys(n: Node):
+    """the Python dict keys / attribute names of a template or dataclass node"""
+    if "keys" in n.x:
+        return list(n.x["keys"])
+    return [key_name(i) for i in n.a[0]]
+
+
+def _build_sadapter(ad, child):
+    se, _ = mods()
+    if ad[0] == "bool":
+        return se.BoolAdapter(child)
+    if ad[0] == "enum":
+        return se.IntEnum(enum_cls(ad[2]), child, strict=ad[1])
+    if ad[0] == "flag":
+        return se.IntFlag(flag_cls(ad[1]), child)
+    raise ValueError(ad)
+
+
+def _build_adapter(ad, child):
+    se, _ = mods()
+    if ad[0] == "opaque":
+        pre = OPAQUE_PRESETS[ad[1]]
+        if pre[0] == "quant":
+            return se.QuantizedFloat(child, pre[1], pre[2])
+        return se.FixedPoint(child, pre[1], pre[2], pre[3])
+    if ad[0] == "bitfield":
+        schema = {}
+        for nm, bits, fa in ad[2]:
+            schema["b%d" % nm] = bits if fa is None else se.BitfieldEntry(bits, _build_sadapter(fa, None))
+        return se.BitField(child, schema, shift=ad[1])
+    return _build_sadapter(ad, child)
+
+
+def _build_coord(n: Node):
+    se, _ = mods()
+    name = n.a[0]
+    cls = getattr(se, name)
+    if name in ("Vector3", "Vector4", "Vector3D"):
+        for c in n.ch:
+            c._obj = cls.ELEM_SPEC
+        return cls
+    pre = OPAQUE_PRESETS[n.ch[0].a[0][1]]
+    if name.startswith("FixedPoint"):
+        o = cls(pre[1], pre[2], pre[3])
+    else:
+        o = cls(pre[1], pre[2])
+    for c, spec in zip(n.ch, o._elem_specs):
+        c._obj = spec
+    return o
+
+
+_DCS = {}
+
+
+def _make_dataclass(n: Node, ch):
+    import dataclasses
+    se, _ = mods()
+    if "data_cls" in n.x:
+        return n.x["data_cls"]
+    keys = tkeys(n)
+    sig = (tuple(keys), tuple(id(c) for c in ch))
+    if sig not in _DCS:
+        _DCS[sig] = dataclasses.make_dataclass(
+            "GenData%d" % len(_DCS), [(kk, object, se.dataclass_field(c)) for kk, c in zip(keys, ch)])
+    n.x["data_cls"] = _DCS[sig]
+    return _DCS[sig]
+
+
 def build(n: Node):
     """the real serialization.py object for the tree"""
     if n._obj is not None:
@@ -298,7 +417,7 @@ def build(n: Node):
     elif k == "tuple":
         o = se.Tuple(*ch)
     elif k == "template":
-        o = se.Template({"f%d" % nm: c for nm, c in zip(a[0], ch)}, skip_missing=a[1])
+        o = se.Template({kk: c for kk, c in zip(tkeys(n), ch)}, skip_missing=a[1])
     elif k == "coll":
         lk = a[0]
         length = iprim_obj(lk[1], lk[2]) if lk[0] == "prefixed" else (lk[1] if lk[0] == "fixed" else None)
@@ -306,13 +425,15 @@ def build(n: Node):
     elif k == "opt":
         o = se.OptionalPrefixed(ch[0])
     elif k == "adapter":
-        ad = a[0]
-        if ad[0] == "bool":
-            o = se.BoolAdapter(ch[0])
-        elif ad[0] == "enum":
-            o = se.IntEnum(enum_cls(ad[2]), ch[0], strict=ad[1])
-        else:
-            o = se.IntFlag(flag_cls(ad[1]), ch[0])
+        o = _build_adapter(a[0], ch[0])
+    elif k == "optflagged":
+        f, ftbl, mask = a
+        fspec = se.U32 if ftbl is None else se.IntFlag(flag_cls(ftbl), se.U32)
+        o = se.OptionalFlagged(key_name(f), fspec, mask, ch[0])
+    elif k == "coord":
+        o = _build_coord(n)
+    elif k == "dataclass":
+        o = se.Dataclass(_make_dataclass(n, ch))
     elif k == "typed":
         tk, en, ct = a
         kw = dict(empty_is_none=en, check_trailing_bytes=ct)
@@ -323,7 +444,7 @@ def build(n: Node):
         elif tk[0] == "fixed":
             o = se.TypedBytesFixed(tk[1], ch[0], **kw)
         else:
-            o = se.TypedBytesTerminated(ch[0], _terms(tk[1]), **kw)
+            o = se.TypedBytesTerminated(ch[0], _terms(tk[1]), skip_none=tk[2], **kw)
     elif k == "ifpresent":
         o = se.IfPresent(ch[0])
     elif k == "lenswitch":
@@ -356,14 +477,16 @@ def delimited(n: Node) -> bool:
         return False
     if k in ("bytesterm", "cstr"):
         return a[1]
-    if k in ("tuple", "template", "enumswitch"):
+    if k in ("tuple", "template", "enumswitch", "coord", "dataclass"):
         return all(delimited(c) for c in n.ch)
     if k == "coll":
         lk = a[0]
         return lk[0] == "prefixed" or (lk[0] == "fixed" and lk[1] != 0)
-    if k in ("opt", "adapter"):
+    if k in ("opt", "adapter", "optflagged"):
         return delimited(n.ch[0])
     if k == "typed":
+        if a[0][0] == "term":
+            return not (a[1] and a[0][2])
         return a[0][0] != "greedy"
     if k in ("ifpresent", "lenswitch"):
         return False
@@ -382,7 +505,7 @@ def min_size(n: Node) -> int:
         return 1 if a[1] else 0
     if k == "uuid":
         return 16
-    if k in ("tuple", "template"):
+    if k in ("tuple", "template", "coord", "dataclass"):
         return sum(min_size(c) for c in n.ch)
     if k == "coll":
         lk = a[0]
@@ -421,7 +544,7 @@ def exact_size(n: Node):
         return 16
     if k == "null":
         return 0
-    if k in ("tuple", "template"):
+    if k in ("tuple", "template", "coord", "dataclass"):
         t = 0
         for c in n.ch:
             s = exact_size(c)
@@ -432,6 +555,18 @@ def exact_size(n: Node):
     if k == "adapter":
         return exact_size(n.ch[0])
     return None
+
+
+def refs(n: Node):
+    """Spec.refs: sibling names the spec reads from its context (sequences and templates rebind it)"""
+    k = n.k
+    if k == "optflagged":
+        return [n.a[0]] + refs(n.ch[0])
+    if k in ("opt", "adapter", "typed", "ifpresent"):
+        return refs(n.ch[0])
+    if k in ("lenswitch", "enumswitch"):
+        return [r for c in n.ch for r in refs(c)]
+    return []
 
 
 def wf(n: Node, ext=False) -> bool:
@@ -457,10 +592,17 @@ def wf(n: Node, ext=False) -> bool:
                 and all(lo <= z <= hi for z in keys))
     if k in ("bytesterm", "cstr"):
         return bool(a[0]) and (a[1] or a[2])
-    if k == "tuple":
+    if k in ("tuple", "coord"):
         return all(wf(c, ext) for c in n.ch) and _butlast([delimited(c) for c in n.ch])
-    if k == "template":
+    if k in ("template", "dataclass"):
+        seen = []
+        for nm, c in zip(a[0], n.ch):
+            if any(r not in seen for r in refs(c)):
+                return False
+            seen.append(nm)
         return all(wf(c, ext) for c in n.ch) and _butlast([delimited(c) for c in n.ch]) and _nodup(a[0])
+    if k == "optflagged":
+        return wf(n.ch[0], ext)
     if k == "coll":
         c = n.ch[0]
         lk = a[0]
@@ -474,11 +616,14 @@ def wf(n: Node, ext=False) -> bool:
         return wf(n.ch[0], ext)
     if k == "adapter":
         ad = a[0]
-        tbl = ad[2] if ad[0] == "enum" else (ad[1] if ad[0] == "flag" else ())
-        return wf(n.ch[0], ext) and _nodup([x for x, _ in tbl])
+        if ad[0] == "bitfield":
+            names = [x[0] for x in ad[2]]
+        else:
+            names = [x for x, _ in (ad[2] if ad[0] == "enum" else (ad[1] if ad[0] == "flag" else ()))]
+        return wf(n.ch[0], ext) and _nodup(names)
     if k == "typed":
         tk, en, ct = a
-        return wf(n.ch[0], ext) and (not en or min_size(n.ch[0]) > 0) and tk[0] != "term"
+        return wf(n.ch[0], ext) and (not en or min_size(n.ch[0]) > 0) and (tk[0] != "term" or bool(tk[1]))
     if k == "ifpresent":
         return wf(n.ch[0], ext) and min_size(n.ch[0]) > 0
     if k in ("lenswitch", "enumswitch"):
@@ -568,6 +713,33 @@ def to_sx(n: Node, pod: bool, v) -> str:
         if v is not None:
             raise Shape("None expected")
         return "( none )"
+    if k == "coord":
+        se, _ = mods()
+        cls = getattr(se, a[0]).COORD_CLS
+        if pod:
+            if not isinstance(v, tuple):
+                raise Shape("tuple expected")
+        elif not isinstance(v, cls):
+            raise Shape(cls.__name__ + " expected")
+        comps = tuple(v)
+        if len(comps) != len(n.ch):
+            raise Shape("component count")
+        return "( l " + " ".join(to_sx(c, pod, x) for c, x in zip(n.ch, comps)) + " )"
+    if k == "dataclass":
+        import dataclasses
+        dc = _make_dataclass(n, [build(c) for c in n.ch])
+        if pod:
+            if not isinstance(v, dict):
+                raise Shape("dict expected")
+            d = v
+        else:
+            if not isinstance(v, dc):
+                raise Shape(dc.__name__ + " expected")
+            d = {f.name: getattr(v, f.name) for f in dataclasses.fields(v)}
+        keys = tkeys(n)
+        if set(d) != set(keys):
+            raise Shape("keys")
+        return "( d " + " ".join(f"( {hx(nm)} {to_sx(c, pod, d[kk])} )" for nm, kk, c in zip(a[0], keys, n.ch)) + " )"
     if k == "tuple":
         if not isinstance(v, (list, tuple)) or len(v) != len(n.ch):
             raise Shape("sequence expected")
@@ -575,16 +747,16 @@ def to_sx(n: Node, pod: bool, v) -> str:
     if k == "template":
         if not isinstance(v, dict):
             raise Shape("dict expected")
-        names = ["f%d" % nm for nm in a[0]]
+        names = tkeys(n)
         if set(v) - set(names):
             raise Shape("extra keys")
-        parts = [f"( {hx(nm)} {to_sx(c, pod, v['f%d' % nm])} )" for nm, c in zip(a[0], n.ch) if "f%d" % nm in v]
+        parts = [f"( {hx(nm)} {to_sx(c, pod, v[kk])} )" for nm, kk, c in zip(a[0], names, n.ch) if kk in v]
         return "( d " + " ".join(parts) + " )" if parts else "( d )"
     if k == "coll":
         if not isinstance(v, (list, tuple)):
             raise Shape("sequence expected")
         return "( l " + " ".join(to_sx(n.ch[0], pod, x) for x in v) + " )" if v else "( l )"
-    if k in ("opt", "ifpresent"):
+    if k in ("opt", "ifpresent", "optflagged"):
         if v is None:
             return "( none )"
         return to_sx(n.ch[0], pod, v)
@@ -594,17 +766,15 @@ def to_sx(n: Node, pod: bool, v) -> str:
         return to_sx(n.ch[0], pod, v)
     if k == "adapter":
         ad = a[0]
+        if ad[0] == "opaque":
+            return f"( i {hx(opaque_int(n, v))} )"
+        if ad[0] == "bitfield":
+            return _bitfield_sx(n, pod, v)
         if ad[0] == "bool":
             if not isinstance(v, int):
                 raise Shape("bool expected")
             return f"( i {hx(int(v))} )"
-        if ad[0] == "enum":
-            return _enum_sx(v)
-        if isinstance(v, int):
-            return f"( i {hx(int(v))} )"
-        if isinstance(v, (tuple, list)):
-            return "( l " + " ".join(_enum_sx(x, "F") for x in v) + " )" if v else "( l )"
-        raise Shape("flag value expected")
+        return _sadapter_sx(ad, v, n.x.get("names"))
     if k == "lenswitch":
         if isinstance(v, dt.TaggedUnion):
             v = (v.tag, v.value)
@@ -644,8 +814,12 @@ def to_sx(n: Node, pod: bool, v) -> str:
     raise ValueError(k)
 
 
-def _enum_sx(v, prefix="E"):
+def _enum_sx(v, prefix="E", names=None):
     if isinstance(v, str):
+        if names is not None:
+            if v not in names:
+                raise Shape("member name expected")
+            return f"( name {hx(names[v])} )"
         if not v.startswith(prefix) or not v[1:].isdigit():
             raise Shape("member name expected")
         return f"( name {hx(int(v[1:]))} )"
@@ -654,20 +828,126 @@ def _enum_sx(v, prefix="E"):
     raise Shape("enum value expected")
 
 
-def from_sx(n: Node, x):
+def _sadapter_sx(ad, v, names=None):
+    """value of a Bool / IntEnum / IntFlag adapter (names: real member name -> id, for registry classes)"""
+    if ad[0] == "bool":
+        if not isinstance(v, int):
+            raise Shape("bool expected")
+        return f"( i {hx(int(v))} )"
+    if ad[0] == "enum":
+        return _enum_sx(v, "E", names)
+    if isinstance(v, int):
+        return f"( i {hx(int(v))} )"
+    if isinstance(v, (tuple, list)):
+        return "( l " + " ".join(_enum_sx(x, "F", names) for x in v) + " )" if v else "( l )"
+    raise Shape("flag value expected")
+
+
+def bf_keys(n: Node):
+    if "bkeys" in n.x:
+        return list(n.x["bkeys"])
+    return ["b%d" % e[0] for e in n.a[0][2]]
+
+
+def _bitfield_sx(n: Node, pod, v):
+    import dataclasses
+    if dataclasses.is_dataclass(v) and not isinstance(v, type):
+        v = {f.name: getattr(v, f.name) for f in dataclasses.fields(v)}
+    if not isinstance(v, dict):
+        raise Shape("dict expected")
+    keys = bf_keys(n)
+    if set(v) != set(keys):
+        raise Shape("bitfield keys")
+    parts = []
+    fnames = n.x.get("fnames") or {}
+    for (nm, bits, fa), kk in zip(n.a[0][2], keys):
+        x = v[kk]
+        if fa is None:
+            if not isinstance(x, int):
+                raise Shape("int expected")
+            parts.append(f"( {hx(nm)} ( i {hx(int(x))} ) )")
+        else:
+            parts.append(f"( {hx(nm)} {_sadapter_sx(fa, x, fnames.get(nm))} )")
+    return "( d " + " ".join(parts) + " )"
+
+
+def _prim_of(n: Node):
+    c = n.ch[0]
+    while c.k != "prim":
+        c = c.ch[0]
+    return c
+
+
+def opaque_int(n: Node, v) -> int:
+    """the wire int an opaque (quantized / fixed-point) adapter encodes the Python value to - computed with the
+    REAL adapter (the model only sees this int)"""
+    se, _ = mods()
+    if not isinstance(v, (int, float)):
+        raise Shape("number expected")
+    w = se.BufferWriter(">")
+    try:
+        w.write(build(n), v)
+    except Exception as ex:
+        raise Shape("opaque adapter cannot encode: " + type(ex).__name__)
+    p = _prim_of(n)
+    return int.from_bytes(bytes(w.buffer), "big", signed=(p.a[0] == "s"))
+
+
+def opaque_value(n: Node, z: int):
+    """decode a wire int with the REAL adapter"""
+    se, _ = mods()
+    p = _prim_of(n)
+    data = z.to_bytes(p.a[1], "big", signed=(p.a[0] == "s"))
+    return se.BufferReader(">", data).read(build(n))
+
+
+def _from_sadapter(ad, x, names=None):
+    h = x[0]
+    if h == "i":
+        z = int(x[1], 16)
+        if ad[0] == "bool":
+            return bool(z) if z in (0, 1) else z
+        return z
+    if h == "name":
+        i = int(x[1], 16)
+        if names is not None:
+            for nm, j in names.items():
+                if j == i:
+                    return nm
+            raise Shape("unknown member id")
+        return ("F" if ad[0] == "flag" else "E") + str(i)
+    if h == "l":
+        return tuple(_from_sadapter(ad, i, names) for i in x[1:])
+    raise Shape(h)
+
+
+def from_sx(n: Node, x, pod=False):
     """model value term (parsed) -> Python value for the real classes (inverse of to_sx on its image)"""
-    _, dt = mods()
+    se, dt = mods()
     k, a = n.k, n.a
     h = x[0]
     if h == "none":
         return None
-    if k in ("opt", "typed", "ifpresent"):
-        return from_sx(n.ch[0], x)
+    if k in ("opt", "typed", "ifpresent", "optflagged"):
+        return from_sx(n.ch[0], x, pod)
+    if k == "adapter":
+        ad = a[0]
+        if ad[0] == "opaque":
+            return opaque_value(n, int(x[1], 16))
+        if ad[0] == "bitfield":
+            keys = bf_keys(n)
+            by = {e[0]: (e, kk) for e, kk in zip(ad[2], keys)}
+            fnames = n.x.get("fnames") or {}
+            out = {}
+            for kv in x[1:]:
+                (nm, bits, fa), kk = by[int(kv[0], 16)]
+                out[kk] = int(kv[1][1], 16) if fa is None else _from_sadapter(fa, kv[1], fnames.get(nm))
+            if not pod and "data_cls" in n.x:
+                return n.x["data_cls"](**out)
+            return out
+        return _from_sadapter(ad, x, n.x.get("names"))
     if h == "i":
-        z = int(x[1], 16)
-        if k == "adapter" and a[0][0] == "bool":
-            return bool(z) if z in (0, 1) else z
-        return z
+        return int(x[1], 16)
     if h == "f":
         w = a[1] if k == "prim" else 8
         return bits_f(int(x[1], 16), w)
@@ -679,20 +959,18 @@ def from_sx(n: Node, x):
         return dt.UUID(bytes=bytes.fromhex(x[1]))
     if h == "uuidstr":
         return str(dt.UUID(bytes=bytes.fromhex(x[1])))
-    if h == "name":
-        pre = "F" if (k == "adapter" and a[0][0] == "flag") else "E"
-        return pre + str(int(x[1], 16))
     if h == "l":
         items = x[1:]
         if k == "tuple":
-            return [from_sx(c, i) for c, i in zip(n.ch, items)] + [from_sx(n.ch[-1], i) for i in items[len(n.ch):]] \
-                if n.ch else []
+            out = [from_sx(c, i, pod) for c, i in zip(n.ch, items)]
+            return out + [0] * (len(items) - len(n.ch))
+        if k == "coord":
+            comps = [from_sx(c, i, pod) for c, i in zip(n.ch, items)]
+            return tuple(comps) if pod else getattr(se, a[0]).COORD_CLS(*comps)
         if k == "coll":
-            return [from_sx(n.ch[0], i) for i in items]
-        if k == "adapter":
-            return tuple(from_sx(n, i) for i in items)
+            return [from_sx(n.ch[0], i, pod) for i in items]
         if k == "lenswitch":
-            tag = from_sx(Node("prim", ("u", 8)), items[0])
+            tag = None if items[0][0] == "none" else int(items[0][1], 16)
             c = None
             for kk, cc in zip(a[0], n.ch):
                 if kk == tag:
@@ -701,19 +979,26 @@ def from_sx(n: Node, x):
                 for kk, cc in zip(a[0], n.ch):
                     if kk is None:
                         c = cc
-            return (tag, from_sx(c or n.ch[0], items[1]))
+            return (tag, from_sx(c or n.ch[0], items[1], pod))
         if k == "enumswitch":
-            tag = from_sx(Node("adapter", (("enum", a[1], a[0]),), [Node("prim", ("u", 8))]), items[0])
+            tag = _from_sadapter(("enum", a[1], a[0]), items[0])
             z = dict(("E%d" % nm, zz) for nm, zz in reversed(a[0])).get(tag) if isinstance(tag, str) else tag
             c = None
             for kk, cc in zip(a[4], n.ch):
                 if kk == z:
                     c = cc
-            return (tag, from_sx(c or n.ch[0], items[1]))
+            return (tag, from_sx(c or n.ch[0], items[1], pod))
         raise Shape("list for " + k)
     if h == "d":
-        by = dict(zip(a[0], n.ch))
-        return {"f%d" % int(kv[0], 16): from_sx(by[int(kv[0], 16)], kv[1]) for kv in x[1:]}
+        keys = tkeys(n)
+        by = {nm: (c, kk) for nm, c, kk in zip(a[0], n.ch, keys)}
+        out = {}
+        for kv in x[1:]:
+            c, kk = by[int(kv[0], 16)]
+            out[kk] = from_sx(c, kv[1], pod)
+        if k == "dataclass" and not pod:
+            return _make_dataclass(n, [build(c) for c in n.ch])(**out)
+        return out
     raise Shape(h)
 
 
